@@ -535,6 +535,23 @@ func (g *Gen) Mutate(sp *Spec) string {
 			return "response.description"
 		default:
 			r := op.Responses[g.R.Intn(len(op.Responses))]
+			if len(r.Headers) > 0 && g.R.Chance(1, 3) {
+				// the same header in another spelling: for the analyser (and for a JSON object) these are two different names,
+				// one deleted and one added
+				old := r.Headers[0].Name
+				nm := strings.ToLower(old)
+				if nm == old {
+					nm = strings.ToUpper(old)
+				}
+				clash := false
+				for _, h := range r.Headers[1:] {
+					clash = clash || h.Name == nm
+				}
+				if !clash && nm != old {
+					r.Headers[0].Name = nm
+					return "respheader.respell"
+				}
+			}
 			if len(r.Headers) > 0 && g.R.Chance(1, 2) {
 				r.Headers = r.Headers[1:]
 				return "respheader.del"
